@@ -12,5 +12,5 @@ FUNCTIONS = ['uxarray.remap.nearest_neighbor._nearest_neighbor@rank1',
 STANDINS = ["remapping", "remap_history"]
 ASSUMPTIONS = []
 EXPLANATION = ""
-LEVEL_TEXT = '_nearest_neighbor proved (rank 1 and 2): every destination value is the value of one in-range source element for the same leading index (no invented values), given the neighbour search as an assumed contract; the neighbour search itself, identity on own elements and IDW convexity/monotonicity are bounded (brute-force great circle, one-hot fields)'
-LEVEL_NOTE = '_remap_grid_parse (sklearn tree, element-kind selection) assumed: returns in-range indices; single destination point excluded (recorded finding); IDW arithmetic not under contract'
+LEVEL_TEXT = '_nearest_neighbor proved (rank 1 and 2): every destination value is the value of one in-range source element for the same leading index (no invented values), given the neighbour search as an assumed contract; _remap_grid_parse proved in dataflow form for 2 coordinate systems x 3 destinations: destination points are the requested element kind of the DESTINATION grid, the neighbours come from a tree over the elements of the SOURCE grid of the kind the data live on (count tests in the order python evaluates them), rebuilt for this call (reconstruct=True); the neighbour search itself, identity on own elements and IDW convexity/monotonicity are bounded (brute-force great circle, one-hot fields)'
+LEVEL_NOTE = 'sklearn tree query and Grid.get_ball_tree summarised (in-range indices assumed); single destination point excluded (recorded finding); IDW arithmetic not under contract'
